@@ -360,7 +360,7 @@ theorem push_none (pq : PQ) (k v t : Nat) (ow : Bool) (h : lookup k pq = none) :
 theorem push_some (pq : PQ) (k v t : Nat) (ow : Bool) (e : Entry) (h : lookup k pq = some e) :
     push pq k v t ow =
       if t > e.due then (ow1 pq k v ow, false) else (ins ⟨k, v, t⟩ (del k (ow1 pq k v ow)), false) := by
-  simp [push, h, ow1]
+  simp [push, h, ow1, Gen.Queue.pqPushKeepsIfLater]
 
 theorem push_added (pq : PQ) (k v t : Nat) (ow : Bool) : (push pq k v t ow).2 = true ↔ k ∉ keys pq := by
   cases h : lookup k pq with
@@ -756,6 +756,7 @@ theorem peek_some (pq : PQ) (now : Nat) (e : Entry) (h : peek pq now = some e) :
   | nil => simp [peek] at h
   | cons x xs =>
     unfold peek at h
+    simp only [Gen.Queue.pqPeekDueLE, Bool.true_and, decide_eq_true_eq] at h
     by_cases hx : x.due ≤ now
     · simp only [hx, if_true, Option.some.injEq] at h
       subst h; exact ⟨xs, rfl, hx⟩
@@ -1386,7 +1387,7 @@ theorem get_serves_due (s : Q) (k : Nat) (e : Entry) (h : QInv s)
       rcases List.mem_cons.1 hm with rfl | h1
       · exact hdue
       · exact Nat.le_trans (hs.1 e h1) hdue
-    simp [peek, this]
+    simp [peek, this, Gen.Queue.pqPeekDueLE]
 
 /-! ### honoured backoff -/
 
